@@ -1,10 +1,13 @@
 """C04 — negation and aggregation see the complete relation, each tuple once."""
 import json
+import os
+import time
 
-from .. import engine_tie, gen_dl, lib, prog
+from .. import c04_gen, dl, engine_tie, gen_dl, lib, prog
 
 PROP = "C04"
 PROP_FILE = "Props/C04.v"
+CORPUS = os.path.join(lib.VERIF, "corpus", PROP + ".jsonl")
 
 
 def gen_cases(tier, seed):
@@ -26,7 +29,179 @@ def gen_cases(tier, seed):
     return cases
 
 
+# ------------------------------------------------------------------ program ASTs through JSON (corpus, replays)
+
+def _tuplify(x):
+    if isinstance(x, list):
+        return tuple(_tuplify(y) for y in x)
+    return x
+
+
+def ast_from_json(o):
+    """program AST of gen/dl.py read back from JSON (tuples were written as lists)"""
+    p = dict(o)
+    p["rels"] = [tuple(_tuplify(r)) for r in o["rels"]]
+    p["rules"] = [dict(heads=[(h[0], [_tuplify(t) for t in h[1]]) for h in r["heads"]], body=[_tuplify(it) for it in r["body"]]) for r in o["rules"]]
+    return p
+
+
+def input_from_json(inp):
+    return {r: [tuple(t) for t in ts] for r, ts in inp.items()}
+
+
+def load_corpus():
+    """corpus/C04.jsonl: one case per line, dict(name, note, prog = program AST, inputs = [{rel: rows}]); run first on every check"""
+    out = []
+    if not os.path.exists(CORPUS):
+        return out
+    for k, line in enumerate(open(CORPUS)):
+        line = line.strip()
+        if not line or line.startswith("#"):
+            continue
+        o = json.loads(line)
+        out.append(dict(id="c04corpus_%d" % k, prog=ast_from_json(o["prog"]), inputs=[input_from_json(i) for i in o["inputs"]], family="corpus", note=o.get("note")))
+    return out
+
+
+def with_ast(mism, r):
+    """mismatches of one engine_tie result, each carrying the program AST so that `./check C04 --replay <file>` can run it again"""
+    for m in mism:
+        m["case"] = dict(m["case"], family=r["case"].get("family", "strat"), ast=r["case"]["prog"])
+        if m["kind"] == "impl_violates_spec" and isinstance(m.get("impl"), dict):
+            for name, v in m["impl"].items():
+                if isinstance(v, dict) and "tuples" in v and v.get("len", 0) > len(v["tuples"]) and m.get("spec") and v["tuples"] == m["spec"].get(name):
+                    m["what"] += " — the relation holds %d rows for %d distinct tuples: a tuple was appended more than once (a tuple missing from the relation's stored index is derived again by a later stratum)" % (v["len"], len(v["tuples"]))
+    return mism
+
+
+# ------------------------------------------------------------------ family `recprod` (gen/c04_gen.py)
+
+def _par_compare(r, k, iv, pool):
+    """ascent_par! run of input k of an engine_tie result vs the stratified model (sets + row counts); no model column"""
+    c = r["case"]
+    rels = c["prog"]["rels"]
+    cs = dict(program=r["text"], id=c["id"], input=c["inputs"][k], macro="ascent_par!", pool_threads=pool, family=c.get("family"), ast=c["prog"])
+    if iv is None or "snaps" not in iv:
+        return [dict(case=cs, impl=iv, model=None, spec=None, kind="impl_violates_spec", known=None,
+                     what="ascent_par!: implementation did not produce a result (compile error / panic / timeout): %s" % json.dumps(iv)[:300])]
+    isnap = prog.canon_snap(iv["snaps"][-1])
+    sg = engine_tie.group_facts(r["spec"][k], rels)
+    for name, _, _ in rels:
+        ilen, iset = isnap[name]
+        if iset != sg[name][1] or ilen != len(sg[name][1]):
+            return [dict(case=cs, impl={name: dict(len=ilen, tuples=iset)}, model=None, spec={name: sg[name][1]}, kind="impl_violates_spec", known=None,
+                         what="ascent_par! (pool of %d): relation %s after run(): %d rows; missing %s; not derivable %s" % (
+                             pool, name, ilen, [t for t in sg[name][1] if t not in iset][:5], [t for t in iset if t not in sg[name][1]][:5]))]
+    return []
+
+
+def recprod(tier, seed, extra_cases=()):
+    """the aggregated / negated relation is produced by a RECURSIVE stratum through extra heads of its rules (gen/c04_gen.py):
+    phase 1 graph inputs, phase 2 nearly saturated inputs, then a slice of both through ascent_par!"""
+    rng = lib.rng_for(seed, PROP, "recprod")
+    quick = tier == "quick"
+    cases = list(extra_cases) + c04_gen.gen_cases(rng, 32 if quick else 320, 3 if quick else 4)
+    results = []
+    for i in range(0, len(cases), 96):
+        results += engine_tie.run(PROP, cases[i:i + 96], tag="c04rp", spec="strat")
+    sat = []
+    rng2 = lib.rng_for(seed, PROP, "recprod_saturated")
+    for r in results:
+        c = r["case"]
+        if r.get("skipped") or not r["spec"] or c.get("family") != "recprod" or len(sat) >= (24 if quick else 220):
+            continue
+        inputs = []
+        for k, inp in enumerate(c["inputs"]):
+            if r["spec"][k] is None or len(r["spec"][k]) > 260:
+                continue
+            inputs += [x for x in c04_gen.saturated_inputs(rng2, c["prog"], inp, r["spec"][k], limit=1) if x not in inputs]
+        if inputs:
+            sat.append(dict(id=c["id"] + "_sat", prog=c["prog"], inputs=inputs[:3], styles=["saturated"] * len(inputs[:3]), family="recprod"))
+    for i in range(0, len(sat), 96):
+        results += engine_tie.run(PROP, sat[i:i + 96], tag="c04rps", spec="strat")
+    nskipped = sum(1 for r in results if r.get("skipped"))
+    results = [r for r in results if not r.get("skipped")]
+    mism, distinct = [], set()
+    dist = dict(shapes={}, side_relation_modes={}, input_styles={}, aggregators={}, programs=0, saturated_programs=len(sat),
+                runs_growing_a_loop_written_unread_relation=0, runs_by_macro={"ascent!": 0, "ascent_par!": 0})
+    for r in results:
+        c = r["case"]
+        p = c["prog"]
+        mism += with_ast(engine_tie.compare_case(r), r)
+        dist["programs"] += 1
+        dist["runs_by_macro"]["ascent!"] += len(c["inputs"])
+        for st in c.get("styles", []):
+            dist["input_styles"][st] = dist["input_styles"].get(st, 0) + 1
+        if c.get("family") == "recprod" and not c["id"].endswith("_sat"):
+            dist["shapes"][p["shape"]] = dist["shapes"].get(p["shape"], 0) + 1
+            for m in p["side_modes"].values():
+                dist["side_relation_modes"][m] = dist["side_relation_modes"].get(m, 0) + 1
+            for rule in p["rules"]:
+                for it in rule["body"]:
+                    if it[0] in ("agg", "neg"):
+                        a = it[2] if it[0] == "agg" else "not"
+                        dist["aggregators"][a] = dist["aggregators"].get(a, 0) + 1
+        unread = [n for n in p.get("written_in_loop", []) if p.get("side_modes", {}).get(n) != "read_in_scc"]
+        cons = {n for n, _, _ in p["rels"] if n[0] in "ct" or n == "rd"}
+        for k, inp in enumerate(c["inputs"]):
+            if not r["spec"] or r["spec"][k] is None:
+                continue
+            by = engine_tie.group_facts(r["spec"][k], p["rels"])
+            grows = any(len(by[n][1]) > len(set(inp.get(n, []))) for n in unread)
+            if grows:
+                dist["runs_growing_a_loop_written_unread_relation"] += 1
+            if grows and any(by[n][1] for n in cons):
+                distinct.add((r["text"], json.dumps(inp, sort_keys=True)))
+    # the same programs through ascent_par! (same generated head-update path, other index types): implementation vs specification
+    pr = [r for r in results if r["spec"] and all(s is not None for s in r["spec"]) and r["front_status"] == "ok" and r["case"].get("family") == "recprod"]
+    pr = [r for r in pr if r["case"]["id"].endswith("_sat")][:(6 if quick else 40)] + [r for r in pr if not r["case"]["id"].endswith("_sat")][:(6 if quick else 40)]
+    rng3 = lib.rng_for(seed, PROP, "recprod_par")
+    jobs, pools = [], {}
+    for r in pr:
+        c = r["case"]
+        pools[c["id"]] = rng3.choice([1, 2, 4])
+        jobs.append(dict(id=c["id"] + "_par", text=dl.rust_program_text(dict(c["prog"], attrs=[])), attrs=[], macro="ascent_par", rels=c["prog"]["rels"],
+                         scripts=[[("set", inp), ("run",), ("snap",)] for inp in c["inputs"]], threads=pools[c["id"]]))
+    impl = prog.build_and_run("c04rpp", jobs) if jobs else {}
+    for r in pr:
+        c = r["case"]
+        res = impl.get(c["id"] + "_par")
+        for k in range(len(c["inputs"])):
+            mism += _par_compare(r, k, res[k] if res else None, pools[c["id"]])
+            dist["runs_by_macro"]["ascent_par!"] += 1
+    return dict(mismatches=mism, evaluations=dist["runs_by_macro"]["ascent!"] + dist["runs_by_macro"]["ascent_par!"], distinct=len(distinct), distribution=dist,
+                skipped=nskipped, plans_validated=sum(1 for r in results if r["valid"] is True), results=results)
+
+
+def replay_case(path):
+    """./check C04 --replay <file>: the stored program AST + input through the real macro again (serial and, when the stored case
+    says so, ascent_par!) vs model vs stratified oracle"""
+    rp = json.load(open(path))
+    cs = rp["case"]
+    if "ast" not in cs or "input" not in cs:
+        return None
+    c = dict(id="c04replay", prog=ast_from_json(cs["ast"]), inputs=[input_from_json(cs["input"])], family=cs.get("family", "replay"))
+    results = engine_tie.run(PROP, [c], tag="c04replay", spec="strat")
+    mism = []
+    for r in results:
+        mism += with_ast(engine_tie.compare_case(r), r)
+        if cs.get("macro") == "ascent_par!" and r["spec"] and r["spec"][0] is not None:
+            pool = cs.get("pool_threads") or 2
+            job = dict(id="c04replay_par", text=dl.rust_program_text(dict(c["prog"], attrs=[])), attrs=[], macro="ascent_par", rels=c["prog"]["rels"],
+                       scripts=[[("set", c["inputs"][0]), ("run",), ("snap",)]], threads=pool)
+            impl = prog.build_and_run("c04replayp", [job])
+            mism += _par_compare(r, 0, (impl.get("c04replay_par") or [None])[0], pool)
+    return dict(evaluations=1, distinct_nontrivial=1, rule="replay of one stored (program, input)", samples=[dict(program=results[0]["text"], input=c["inputs"][0])],
+                distribution={}, mismatches=mism)
+
+
 def tie(tier, seed, replay):
+    if replay:
+        t = replay_case(replay)
+        if t is not None:
+            return t
+    times = {}
+    t0 = time.time()
     cases = gen_cases(tier, seed)
     results = []
     for i in range(0, len(cases), 96):
@@ -35,7 +210,7 @@ def tie(tier, seed, replay):
     results = [r for r in results if not r.get("skipped")]
     mism, feats, distinct = [], {}, set()
     for r in results:
-        mism += engine_tie.compare_case(r)
+        mism += with_ast(engine_tie.compare_case(r), r)
         for f in gen_dl.program_features(r["case"]["prog"]):
             feats[f] = feats.get(f, 0) + 1
         for it_rule in r["case"]["prog"]["rules"]:
@@ -45,17 +220,36 @@ def tie(tier, seed, replay):
         for k, inp in enumerate(r["case"]["inputs"]):
             if r["spec"] and r["spec"][k] is not None and len(r["spec"][k]) > sum(len(v) for v in inp.values()):
                 distinct.add((r["text"], json.dumps(inp, sort_keys=True)))
+    times["stratified_levels"] = round(time.time() - t0, 1)
+    # the aggregated / negated relation is produced by a recursive stratum, through extra heads of its rules (gen/c04_gen.py);
+    # the corpus (minimised earlier failures) runs in the same batch, first
+    t0 = time.time()
+    rp = recprod(tier, seed, extra_cases=load_corpus())
+    mism += rp["mismatches"]
+    times["recursive_producer"] = round(time.time() - t0, 1)
     # aggregates / negation over LATTICE relations ("one row per key for a lattice"), serial and parallel (gen/c04_lat.py)
-    from .. import c04_lat
+    from .. import c04_lat, c04_latmodel
+    t0 = time.time()
     lat = c04_lat.run(tier, seed, modes=("serial", "par"), tag="c04lat")
     mism += lat["mismatches"]
+    times["lattice_aggregates_vs_oracle"] = round(time.time() - t0, 1)
+    # ... and the MODEL column of that family: the serial runs vs LatEngine/LatAggEval.v arun_plan on the plan dumped by the real front
+    # end, whose boolean hypotheses (validate, alat_plan_ok, plan_below) are evaluated for every dumped plan (gen/c04_latmodel.py)
+    t0 = time.time()
+    latm = c04_latmodel.check(tier, seed, tag="c04latmodel")
+    mism += latm["mismatches"]
+    times["lattice_aggregates_vs_model"] = round(time.time() - t0, 1)
     sample = [dict(program=r["text"], summary=r["summary"], input=r["case"]["inputs"][0],
                    impl={k: v[1][:6] for k, v in prog.canon_snap(r["impl"][0]["snaps"][-1]).items()} if r["impl"] and "snaps" in r["impl"][0] else r["impl"])
-              for r in results[:3]]
-    return dict(evaluations=sum(len(r["case"]["inputs"]) for r in results) + lat["evaluations"], distinct_nontrivial=len(distinct) + lat["distinct"],
-                rule="(a) lattice family (impl vs python Kleene + aggregate oracle, no model column): a 2-key lattice raised over many iterations of a recursive stratum (capped longest walks / shortest paths) aggregated (count, sum, min, max, negation) through every index shape (first / second key column bound, nothing bound, all key columns bound, a derived unary-key lattice), ascent! and ascent_par! (pools 1, 3, 8, with / without inter_rule_parallelism, perturbation seeds); (b) random stratified programs: relations on 2-3 levels, rules of level L aggregate (count/sum/min/max) or negate relations of lower levels with every mix of key / wildcard / aggregated columns, results feed higher levels; x 3-4 inputs; non-trivial = the run derives at least one fact; distinct = distinct (program, input)",
-                samples=sample, distribution=dict(programs=len(results), features=feats), mismatches=mism,
+              for r in (results[:2] + [r for r in rp["results"] if r["case"].get("family") == "recprod"][:2])]
+    return dict(evaluations=sum(len(r["case"]["inputs"]) for r in results) + rp["evaluations"] + lat["evaluations"] + latm["evaluations"],
+                distinct_nontrivial=len(distinct) + rp["distinct"] + lat["distinct"],
+                rule="(a) lattice family (impl vs python Kleene + aggregate oracle, and the serial runs vs the Coq model LatEngine/LatAggEval.v arun_plan on the dumped plan): a 2-key lattice raised over many iterations of a recursive stratum (capped longest walks / shortest paths) aggregated (count, sum, min, max, negation) through every index shape (first / second key column bound, nothing bound, all key columns bound, a derived unary-key lattice), ascent! and ascent_par! (pools 1, 3, 8, with / without inter_rule_parallelism, perturbation seeds); (b) random stratified programs: relations on 2-3 levels, rules of level L aggregate (count/sum/min/max) or negate relations of lower levels with every mix of key / wildcard / aggregated columns, results feed higher levels; x 3-4 inputs; non-trivial = the run derives at least one fact; (c) recursive-producer family (gen/c04_gen.py): ONE looping SCC (left / right / non-linear closure, reachability, mutual recursion, capped distance labels) whose rules carry extra heads into side relations (written only / also read in the SCC / also written by an earlier SCC / with input rows; head order varied; multi-head base rules), every level-1 relation aggregated / negated by later strata through every key shape, plain readers, recursive consumers, a third level; inputs = graphs with several routes of different length (diamonds, cycles, dense, chains) and NEARLY SATURATED inputs (the stratified model with one level-1 relation reset to its input rows: the first iteration is the last), serial and a slice through ascent_par!; non-trivial = a relation written in the loop and read by no rule of it gains a tuple and a consumer derives something; distinct = distinct (program, input)",
+                samples=sample, distribution=dict(programs=len(results), features=feats, recursive_producer=rp["distribution"]), mismatches=mism,
                 trusted_base=["FRONT hook + gen/dl.py plan translation; gen/prog.py generated crates; python stratification (Tarjan) feeding the Coq oracle strat_fix, checked by Strat.stratified inside Coq",
-                              "code generation from MIR to Rust is modelled by hand in Engine/Eval.v and tied by these runs"],
+                              "code generation from MIR to Rust is modelled by hand in Engine/Eval.v (and LatEngine/LatAggEval.v for lattices with aggregates) and tied by these runs"],
                 assumptions=["aggregator semantics as in Agg/AggModel.v (C17)", "small i32 values; count results converted with `as i32`"],
-                extra=dict(lattice_aggregate_runs=lat["evaluations"], lattice_aggregate_distribution=lat["distribution"], cases_skipped_model_too_slow=nskipped, plans_validated=sum(1 for r in results if r["valid"] is True)))
+                extra=dict(lattice_aggregate_runs=lat["evaluations"], lattice_aggregate_distribution=lat["distribution"],
+                           lattice_aggregate_model_column={k: v for k, v in latm.items() if k != "mismatches"},
+                           cases_skipped_model_too_slow=nskipped + rp["skipped"],
+                           plans_validated=sum(1 for r in results if r["valid"] is True) + rp["plans_validated"], phase_seconds=times))
